@@ -236,7 +236,7 @@ theorem C19_session_ends_exactly (cfg : Cfg) (st : St) (rid : ReqId) (rec : Rec)
       | false =>
         rcases hh with h | ⟨_, h⟩
         · rw [h]
-          exact ⟨Or.inl rfl, by simp [hL, hdl]⟩
+          exact ⟨Or.inl rfl, by simp [reentry, hL, hdl]⟩
         · simp only [reentry] at h
           rw [hdl] at h
           cases h
